@@ -789,7 +789,7 @@ def cfg_key(case, r):
 
 def unit_roundtrip(ctx, pool):
     cases = []
-    n = 8000 if ctx.thorough else (1500 if ctx.escalated() else 700)
+    n = 30000 if ctx.thorough else (1500 if ctx.escalated() else 500)
     # systematic sweep: every compressor x dtype x rechunk x executor on small streams
     for comp in range(4):
         for v in range(4):
@@ -807,14 +807,14 @@ def unit_roundtrip(ctx, pool):
 
 def unit_malformed(ctx, pool):
     cases = []
-    for _ in range(2000 if ctx.thorough else 250):
+    for _ in range(8000 if ctx.thorough else 200):
         st = gen_stream(ctx.rng, small=ctx.rng.random() < 0.5)
         st, kind = malform(ctx.rng, st)
         case = base_case(ctx.rng, st, ai=ctx.rng.choice([0, 0, 1]), driver="save_from")
         case["kind"] = kind
         cases.append(case)
     # metadata handed to the saver that disagrees with the chunks, and allow_incomplete on good data
-    for _ in range(400 if ctx.thorough else 50):
+    for _ in range(1000 if ctx.thorough else 40):
         st = gen_stream(ctx.rng, small=True)
         case = base_case(ctx.rng, st, ai=ctx.rng.randint(0, 1))
         if ctx.rng.random() < 0.5:
@@ -826,7 +826,7 @@ def unit_malformed(ctx, pool):
 
 def unit_tamper(ctx, pool):
     cases = []
-    for _ in range(4000 if ctx.thorough else 450):
+    for _ in range(15000 if ctx.thorough else 350):
         st = gen_stream(ctx.rng, small=ctx.rng.random() < 0.5)
         case = base_case(ctx.rng, st, ai=ctx.rng.choice([0, 0, 0, 1]), driver="save_from")
         t = gen_tamper(ctx.rng, len(st))
@@ -842,7 +842,7 @@ def unit_tamper(ctx, pool):
 
 def unit_forked(ctx, pool):
     cases = []
-    n = 600 if ctx.thorough else 60
+    n = 2000 if ctx.thorough else 50
     for i in range(n):
         st = gen_stream(ctx.rng, small=True)
         order = list(range(len(st)))
@@ -914,9 +914,9 @@ def crosscheck(ctx, pairs):
     """re-evaluate a sample of the cases inside Coq (vm_compute) and compare with the extracted model"""
     if not pairs:
         return
-    pairs = ctx.rng.sample(pairs, min(len(pairs), 90 if ctx.thorough else 36))
+    pairs = ctx.rng.sample(pairs, min(len(pairs), 150 if ctx.thorough else 24))
     eqs = ["%s = %s" % (coq_run(c), digest_of_line(mo)) for c, mo in pairs]
-    n, fails = lib.coq_crosscheck("C03", "From SV Require Import Model.SaverLoader Model.C03Run.", eqs, shard=12)
+    n, fails = lib.coq_crosscheck("C03", "From SV Require Import Model.SaverLoader Model.C03Run.", eqs, shard=25)
     ctx.coverage.setdefault("kernel_crosscheck", {})["c03_run"] = {"equations": n, "failed_files": len(fails)}
     if fails:
         ctx.violation("crosscheck", "extracted model and Coq vm_compute disagree: " + fails[0][-400:],
